@@ -157,6 +157,14 @@ def l3_batch(seed, count, nq, driver, outdir, binary=None, profiles=("opt", "loo
                 ops.append(("route", q, True, acc, egr))
             if r.chance(0.35):
                 ops.append(("access", q, acc if q["fwd"] else egr))
+        # per directory: one accessibility request whose place has NO stop in reach and one route request with both tables
+        # empty (the router offers nothing): the NO_ACCESS_* reasons as the real renderer writes them
+        if ops:
+            q0 = dict([o for o in ops if o[0] == "route"][0][1])
+            ops.append(("access", dict(q0), []))
+            ops.append(("route", dict(q0), False, [], []))
+            q1 = dict(q0); q1["fwd"] = 1 - q0["fwd"]
+            ops.append(("access", q1, []))
         case = os.path.join(outdir, "l%04d_%s.case" % (i, prof_name))
         with open(case, "w") as f:
             f.write("# L3 seed=%d index=%d profile=%s\n" % (seed, i, prof_name))
